@@ -1,3 +1,128 @@
-import ICal.Model.Line
+/-
+  C05 — joining a name, a parameter map and a value text into a content line and splitting the
+  line again returns the same name, the same parameters and the same value text; whatever a
+  value holds, the line read back has the same name and the same parameters: a value cannot
+  inject structure.
+  Property theorems only; helper lemmas and the definitions `NoPlaceholderPair`, `NoPercentCode`,
+  `Hazardless`, `ParamsHazardless`, `pvalStrs`, `lineText`, `special` are in ICal/Lemmas/Line.lean;
+  `ParamDomain`, `canon`, `ValueOk` in ICal/Lemmas/Params.lean (C08).
+  `fromParts`, `parts`, `escapeString`, `unescapeString` are the models of Contentline.from_parts,
+  Contentline.parts, escape_string, unescape_string, built on the *generated* replace chains and
+  character classes (ICal.Gen, regenerated from /repo each run).
+
+  Recorded defects the statements respect: D02 (`parts()` turns `\,` `\:` `\;` `\\` of a value or
+  parameter value into `,` `:` `;` `\`) and D03 (a literal `%2C` `%3A` `%3B` `%5C` becomes
+  `,` `:` `;` `\`): the *equalities on values* carry the hypothesis `Hazardless`; the statements
+  on names and parameters (the injection statements) carry none on the value.
+-/
+import ICal.Lemmas.Line
 namespace ICal.C05
+
+/-- `escape_string` leaves a text alone in which no backslash is followed by `,` `:` `;` `\`. -/
+theorem escapeString_id (s : Str) (h : NoPlaceholderPair s = true) : escapeString s = s :=
+  ICal.escapeString_id s h
+
+/-- `unescape_string` leaves a text alone that holds none of `%2C` `%3A` `%3B` `%5C`. -/
+theorem unescapeString_id (s : Str) (h : NoPercentCode s = true) : unescapeString s = s :=
+  ICal.unescapeString_id s h
+
+/-- Serialisation is refused for a raw line feed in the value. -/
+theorem lf_refused (n : Str) (p : Params) (v : Str) (sorted : Bool) (h : LF ∈ v) :
+    fromParts n p v sorted = .error .assertion := by
+  rw [fromParts_eq]
+  apply mkLine_lf
+  unfold lineText
+  split <;> simp [h]
+
+/-- Serialisation of a NAME, a map of the domain and a value without line feed succeeds. -/
+theorem fromParts_succeeds (n : Str) (p : Params) (v : Str) (sorted : Bool) (hn : validToken n = true)
+    (hp : ParamDomain p) (hv : LF ∉ v) : ∃ l, fromParts n p v sorted = .ok l :=
+  ⟨_, fromParts_ok n p v sorted hn hp hv⟩
+
+/-- No injection, strongest form: for EVERY value text `v` (no hazard hypothesis: `;X=1:`, quotes,
+    `%3A`, backslashes, ...) the line splits into exactly the name and the parameters that were
+    joined; only the value text goes through the two placeholder passes (D02/D03 live there). -/
+theorem value_cannot_inject (n : Str) (p : Params) (v : Str) (hn : validToken n = true)
+    (hp : ParamDomain p) (hpz : ParamsHazardless p) (hv : LF ∉ v) :
+    ∃ l, fromParts n p v true = .ok l ∧
+      parts l = some (n, canon p, unescapeString (escapeString v)) :=
+  ⟨_, fromParts_ok n p v true hn hp hv, parts_lineText n p v hn hp hpz⟩
+
+/-- Join/split inverse. Unbounded in the number of parameters, list and string lengths. -/
+theorem parts_fromParts (n : Str) (p : Params) (v : Str) (hn : validToken n = true)
+    (hp : ParamDomain p) (hpz : ParamsHazardless p) (hv : LF ∉ v) (hz : Hazardless v) :
+    ∃ l, fromParts n p v true = .ok l ∧ parts l = some (n, canon p, v) := by
+  refine ⟨_, fromParts_ok n p v true hn hp hv, ?_⟩
+  rw [parts_lineText n p v hn hp hpz, ICal.escapeString_id v hz.1, ICal.unescapeString_id v hz.2]
+
+/-- Join/split inverse without parameters. -/
+theorem parts_fromParts_noparams (n v : Str) (hn : validToken n = true) (hv : LF ∉ v) (hz : Hazardless v) :
+    fromParts n [] v = .ok (n ++ ':' :: v) ∧ parts (n ++ ':' :: v) = some (n, [], v) := by
+  have h1 := fromParts_ok n [] v true hn (by decide) hv
+  have h2 := parts_lineText n [] v hn (by decide) (by decide)
+  have e : lineText n [] v true = n ++ ':' :: v := by simp [lineText]
+  rw [e] at h1 h2
+  rw [ICal.escapeString_id v hz.1, ICal.unescapeString_id v hz.2] at h2
+  exact ⟨h1, h2⟩
+
+/-- The name read back is the name written, whatever the value text is. -/
+theorem name_preserved (n : Str) (p : Params) (v : Str) (hn : validToken n = true)
+    (hp : ParamDomain p) (hpz : ParamsHazardless p) :
+    ∀ l, fromParts n p v = .ok l → ∀ n' p' v', parts l = some (n', p', v') → n' = n := by
+  intro l hl n' p' v' hparts
+  rw [fromParts_eq] at hl
+  rw [mkLine_inv _ _ hl, parts_lineText n p v hn hp hpz] at hparts
+  injection hparts with h
+  exact (congrArg Prod.fst h).symm
+
+/-- A property written without parameters never acquires one, whatever the value text is. -/
+theorem no_param_injection_noparams (n v : Str) (hn : validToken n = true) :
+    ∀ l, fromParts n [] v = .ok l → ∀ n' p' v', parts l = some (n', p', v') → p' = [] := by
+  intro l hl n' p' v' hparts
+  rw [fromParts_eq] at hl
+  rw [mkLine_inv _ _ hl, parts_lineText n [] v hn (by decide) (by decide)] at hparts
+  injection hparts with h
+  exact (congrArg (fun t => t.2.1) h).symm
+
+/-- The parameters read back are the parameters written (sorted, `canon`), whatever the value
+    text is. -/
+theorem no_param_injection_hazardless (n : Str) (p : Params) (v : Str) (hn : validToken n = true)
+    (hp : ParamDomain p) (hpz : ParamsHazardless p) :
+    ∀ l, fromParts n p v = .ok l → ∀ n' p' v', parts l = some (n', p', v') → p' = canon p := by
+  intro l hl n' p' v' hparts
+  rw [fromParts_eq] at hl
+  rw [mkLine_inv _ _ hl, parts_lineText n p v hn hp hpz] at hparts
+  injection hparts with h
+  exact (congrArg (fun t => t.2.1) h).symm
+
+/-! Witnesses of the recorded defects (why `Hazardless` is a hypothesis of the value equalities). -/
+
+/-- D02: the value `a\\,b` (a, backslash, backslash, comma, b) loses a backslash. -/
+theorem witness_D02_uri :
+    parts ['U', 'R', 'L', ':', 'a', '\\', '\\', ',', 'b'] = some (['U', 'R', 'L'], [], ['a', '\\', ',', 'b']) := by
+  decide
+
+/-- D03: a literal `%2C` in a value reads back as a comma. -/
+theorem witness_D03 :
+    parts ['U', 'R', 'L', ':', '5', '0', '%', '2', 'C'] = some (['U', 'R', 'L'], [], ['5', '0', ',']) := by
+  decide
+
+/-- D02 in a parameter value: `K="a\;b"` reads back as `a;b`. -/
+theorem witness_D02_param :
+    parts ['X', ';', 'K', '=', '"', 'a', '\\', ';', 'b', '"', ':', 'v'] =
+      some (['X'], [(['K'], .one ['a', ';', 'b'])], ['v']) := by
+  decide
+
+/-! Non-vacuity: the hypotheses are satisfiable, and the hostile value of the informal statement
+    is covered by `value_cannot_inject`. -/
+example : validToken ['X', '-', 'A'] = true := by decide
+example : ParamDomain sampleParams ∧ ParamsHazardless sampleParams := by decide
+example : Hazardless "a;X=1:b\"c,%2 \\n\\".toList ∧ LF ∉ "a;X=1:b\"c,%2 \\n\\".toList := by decide
+example : ¬ Hazardless ['a', '\\', ',', 'b'] ∧ ¬ Hazardless ['%', '3', 'A'] := by decide
+example : fromParts ['X', '-', 'A'] sampleParams ";Y=1:\"".toList =
+    .ok "X-A;A.1=one;CN=\"x,;: y\";E=;X-B=\"a,b\",c;Z_=,:;Y=1:\"".toList := by rfl
+example : parts "X-A;A.1=one;CN=\"x,;: y\";E=;X-B=\"a,b\",c;Z_=,:;Y=1:\"".toList =
+    some (['X', '-', 'A'], canon sampleParams, ";Y=1:\"".toList) := by decide
+example : fromParts ['A'] [] ['x', '\n'] = .error .assertion := by rfl
+
 end ICal.C05
